@@ -80,7 +80,36 @@ def run(ctx):
     if s:
         require_guard(ctx, s, Has("call:bech32::*decode", "a1", name="?bech32::decode"), "C47.parse.bech32")
         require_guard(ctx, s, Has("call:*str*::parse", name="?prefix kind parse"), "C47.parse.kind")
-        require_guard(ctx, s, Has("call:*TryInto*::try_into", name="20-byte id conversion checked"), "C47.parse.len")
+        lenspec = Has("call:*TryInto*::try_into", name="20-byte id conversion checked")
+        require_guard(ctx, s, lenspec, "C47.parse.len")
+        # the length-checked conversion must see the WHOLE decoded payload: between the bech32 payload
+        # and try_into only borrows, derefs and full-range views are allowed (a `get(..20)` / `[..20]`
+        # / split_at in between makes every longer payload pass)
+        from engine.rules import Guards
+        from engine.mir import std_tail
+        WHOLE = ("Deref::deref", "Index::index", "AsRef::as_ref", "Vec::as_slice", "Borrow::borrow", "<impl [T]>::as_ref", "Vec::as_ref", "Into::into", "From::from", "Try::branch", "Result::map_err")
+        bad = []
+        seen = 0
+        for b, _p, _i in Guards(ctx, s).guard_blocks(lenspec):
+            for n in walk(s.switch_discr_expr(b)):
+                if n[0] == "call" and std_tail(n[2]) in ("TryInto::try_into", "TryFrom::try_from") and n[3]:
+                    seen += 1
+                    x = n[3][0]
+                    for _ in range(12):
+                        if x[0] in ("proj", "part"):
+                            x = x[2]
+                        elif x[0] == "cast":
+                            x = x[1]
+                        elif x[0] == "call" and std_tail(x[2]) in WHOLE and x[3]:
+                            if std_tail(x[2]) == "Index::index" and len(x[3]) > 1 and not (x[3][1][0] == "agg" and str(x[3][1][1]).endswith("RangeFull")):
+                                bad.append("partial index")
+                                break
+                            x = x[3][0]
+                        else:
+                            break
+                    if x[0] == "call" and not (x[1].startswith("bech32::") or "bech32" in x[2]):
+                        bad.append(std_tail(x[2]) or x[2])
+        ctx.check(seen >= 1 and not bad, "C47.parse.whole-payload", s.path, "the 20-byte conversion is applied to the whole decoded payload" + (" (found %s in between)" % bad[0] if bad else ""), key="C47.parse.whole-payload")
     d = ctx.anchor(A + "address_to_string", main=False)
     if d:
         rl = set()
